@@ -298,8 +298,9 @@ fn item_ranges(i: &TypeHierarchyItem) -> &'static str {
     if !le(&i.range.start, &i.selection_range.start) || !le(&i.selection_range.end, &i.range.end) {
         return "!selection-outside-range";
     }
-    let text = i.uri.to_file_path().ok().and_then(|p| std::fs::read_to_string(p).ok()).unwrap_or_default();
-    let lines: Vec<&str> = text.split('\n').collect();
+    // the document as the server reads it (bytes + lossy conversion; a CR belongs to the line end)
+    let text = i.uri.to_file_path().ok().map(|p| wsutil::read_lossy(&p)).unwrap_or_default();
+    let lines: Vec<&str> = text.split('\n').map(|l| l.strip_suffix('\r').unwrap_or(l)).collect();
     let inside = |p: &lsp_types::Position| match lines.get(p.line as usize) {
         Some(l) => (p.character as usize) <= l.encode_utf16().count(),
         None => false,
@@ -320,7 +321,7 @@ fn item_owner(i: &TypeHierarchyItem, member: bool) -> String {
     if stem.to_uppercase() != owner.to_uppercase() {
         return format!("!uri-names-{}", stem);
     }
-    let text = path.and_then(|p| std::fs::read_to_string(p).ok()).unwrap_or_default();
+    let text = path.map(|p| wsutil::read_lossy(&p)).unwrap_or_default();
     let sel = &i.selection_range;
     let at: Option<String> = text.split('\n').nth(sel.start.line as usize).and_then(|l| {
         if sel.start.line != sel.end.line {
